@@ -65,3 +65,19 @@ package sql
 
 //@ func (*Table).TableName
 //@   pure
+
+// ---------------------------------------------------------------- C05 / C08 (kernel)
+
+// the index of the first column whose lower-cased Go name is "id", or -1
+//@ func Table.Primary
+//@   props C05 C08
+//@   pure
+//@   requires forall i int :: 0 <= i && i < len(ta.Columns) ==> ta.Columns[i].Field.Field != nil
+//@   ensures -1 <= result && result < len(ta.Columns)
+//@   ensures result >= 0 ==> strings.ToLower(ta.Columns[result].Field.Field.Name()) == "id" && (forall j int :: 0 <= j && j < result ==> strings.ToLower(ta.Columns[j].Field.Field.Name()) != "id")
+//@   ensures result == -1 ==> (forall j int :: 0 <= j && j < len(ta.Columns) ==> strings.ToLower(ta.Columns[j].Field.Field.Name()) != "id")
+//@   loop ta.Columns.1 index n
+//@   loop ta.Columns.1 invariant forall j int :: 0 <= j && j < n ==> strings.ToLower(ta.Columns[j].Field.Field.Name()) != "id"
+
+//@ func ForeignKey.IsNullable
+//@   pure
